@@ -75,7 +75,10 @@ def run(ctx, module, cfg, workers=8, timeout=600, simulate=None, depth=None, see
         with open(os.path.join(d, fn), "w") as f:
             f.write(txt)
     meta = os.path.join(ctx.tmp, "meta-" + name + "-%d" % int(time.time() * 1000))
-    java = ["java", "-XX:+UseParallelGC", "-XX:ParallelGCThreads=%d" % max(2, min(4, int(workers))), "-Xss64m"]
+    jtmp = os.path.join(ctx.tmp, "jtmp")      # TLC unpacks its standard modules into java.io.tmpdir and leaves them
+    os.makedirs(jtmp, exist_ok=True)
+    java = ["java", "-XX:+UseParallelGC", "-XX:ParallelGCThreads=%d" % max(2, min(4, int(workers))), "-Xss64m",
+            "-Djava.io.tmpdir=" + jtmp]
     if heap:
         java.append("-Xmx" + heap)
     if dfs:
@@ -161,7 +164,9 @@ def postcondition_failed(res):
 
 def sany(ctx, module):
     d = _stage(ctx, "sany")
-    cmd = ["java", "-cp", JAR + ":" + DEPS, "tla2sany.SANY", module + ".tla"]
+    jtmp = os.path.join(ctx.tmp, "jtmp")
+    os.makedirs(jtmp, exist_ok=True)
+    cmd = ["java", "-Djava.io.tmpdir=" + jtmp, "-cp", JAR + ":" + DEPS, "tla2sany.SANY", module + ".tla"]
     p = subprocess.run(cmd, cwd=d, stdout=subprocess.PIPE, stderr=subprocess.STDOUT, timeout=120, text=True)
     if p.returncode != 0 or "*** Errors" in p.stdout or "Fatal errors" in p.stdout or "Parse Error" in p.stdout:
         raise MachineryError("SANY rejected %s:\n%s" % (module, p.stdout[-2000:]))
